@@ -113,7 +113,7 @@ CHECKS = {
     "C15": dict(
         category="exploration",
         technique="bounded-exhaustive enumeration of 3.8-syntax programs (C01/C06/C12/C13 spaces, f-string/literal shapes, syntax-sensitive programs) x 8 option combinations x host interpreters, every distinct output text evaluated by a batch worker under each of Python 3.8..3.13 against that runtime's own execution of the source; plus parse-portability of the oneliner unparser over C03's expression space on every runtime",
-        text="Every program of the listed spaces that python3.8 compiles and runs is converted under all option combinations on host 3.12 (thorough: 3.10-3.13); every distinct output text is evaluated on each of 3.8, 3.9, 3.10, 3.11, 3.12, 3.13 and must match that runtime's execution of the source; every in-scope expression tree of C03's space (depth<=1 full, depth 2/3 over hazard sets) unparsed by the oneliner unparser must parse to the same tree on every runtime where the tree is denotable.",
+        text="Every program of the listed spaces that python3.8 compiles and runs is converted under all option combinations on hosts 3.10 and 3.12 (thorough: 3.10-3.13); every distinct output text is evaluated on each of 3.8, 3.9, 3.10, 3.11, 3.12, 3.13 and must match that runtime's execution of the source; every in-scope expression tree of C03's space (depth<=1 full, depth 2/3 over hazard sets) unparsed by the oneliner unparser must parse to the same tree on every runtime where the tree is denotable.",
         note="Trusted: the six installed interpreters; 3.14 is not installed (stated limit). Each runtime computes its own reference.",
         ref="DESIGN.md 3 C15",
     ),
